@@ -186,6 +186,32 @@ for _c, _shp in _ARG2_SHAPES.items():
         POOL[_c]["args"][4] = (lambda shp, c: (lambda dt: _rand(_bump(shp), dt, 100 * c + 4)))(_shp, _c)
 
 
+# argument 5 of every forward configuration: a BIG input - beyond the small size thresholds (2^16 elements, and every constant up
+# to 2^18 that census finds in the library's source: a scratch buffer, a block cache, an in-place gather "for large inputs only"
+# lives above such a constant and is shared between threads exactly there)
+def _big_numel():
+    try:
+        from . import census
+        return 2 * max([1 << 16] + [v for v in census.constants() if v <= (1 << 18)])
+    except Exception:   # noqa
+        return 1 << 17
+
+
+def _big_shape(nd):
+    T = _big_numel()
+    if nd == 3:
+        return (2, 2, (T // 4 // 8 + 1) * 8)
+    side = int((T / 4) ** 0.5) // 8 * 8 + 8
+    return (2, 2, side, side + 8)
+
+
+BIG_FORWARD = (1, 2, 3, 7, 9, 11, 12, 13, 17)
+for _c in BIG_FORWARD:
+    if _c in POOL:
+        _nd = 3 if "1D" in POOL[_c]["name"] else 4
+        POOL[_c]["args"][5] = (lambda nd, c: (lambda dt: _rand(_big_shape(nd), dt, 100 * c + 5)))(_nd, _c)
+
+
 class ArgumentMutated(Exception):
     pass
 
